@@ -63,8 +63,8 @@ def _enum(tier, shard, nshards):
 
 
 PHASES = [
-    HypPhase("dyadic", _dyadic, dict(quick=5000, thorough=40000)),
-    HypPhase("float", _float, dict(quick=1000, thorough=20000)),
+    HypPhase("dyadic", _dyadic, dict(quick=8000, thorough=40000)),
+    HypPhase("float", _float, dict(quick=1600, thorough=20000)),
     EnumPhase("grid6", _enum,
               lambda tier: "all ordered pairs of subsets of {0..6} on [0,6] x MRTS in "
                            "{0,1,2,3,4,12} x RI, backend alternating with mask parity"),
